@@ -509,5 +509,30 @@ def run(prop, tier, seed, root):
     elif p.returncode != 0:
         viols.append(dict(kind="rejected-control", sig="workload-failed:threads-workload", detail="the cross-thread workload failed: " + p.stderr[-1200:],
                           desc="c15_threads", cfg="", family="threads", ordinal=0, seed=seed))
+    # --- 3b. the same workload natively under ThreadSanitizer (real threads, many repetitions)
+    tdir = os.path.join(common.TARGET, "probes-c15-tsan")
+    env = common.env_base({"RUSTFLAGS": "-Zsanitizer=thread"})
+    b = subprocess.run(["cargo", "+nightly", "build", "--offline", "--quiet", "-Zbuild-std", "--target", "x86_64-unknown-linux-gnu", "--manifest-path", os.path.join(d, "Cargo.toml"), "--target-dir", tdir],
+                       env=env, stdout=subprocess.PIPE, stderr=subprocess.PIPE, text=True, cwd=d, timeout=1800)
+    exe = os.path.join(tdir, "x86_64-unknown-linux-gnu", "debug", "c15_threads")
+    if b.returncode == 0 and os.path.exists(exe):
+        reps = 60 if tier == "thorough" else 12
+        tsan_runs = 0
+        for i in range(reps):
+            r = subprocess.run([exe], env=common.env_base({"TSAN_OPTIONS": "halt_on_error=1 exitcode=66"}), stdout=subprocess.PIPE, stderr=subprocess.PIPE, text=True, timeout=300)
+            if "EVENTS" in r.stdout:
+                tsan_runs += 1
+            if "ThreadSanitizer" in r.stderr:
+                i0 = r.stderr.find("WARNING: ThreadSanitizer")
+                viols.append(dict(kind="race", sig="race:threads-workload-tsan", detail=r.stderr[i0:i0 + 1500], desc="c15_threads under ThreadSanitizer", cfg="", family="threads", ordinal=i, seed=seed))
+                break
+            if r.returncode != 0:
+                viols.append(dict(kind="rejected-control", sig="workload-failed:threads-workload-tsan", detail="the cross-thread workload failed natively: " + r.stderr[-800:], desc="c15_threads", cfg="", family="threads", ordinal=i, seed=seed))
+                break
+        out["counters"]["tsan_runs"] = tsan_runs
+        out["evaluations"] += tsan_runs
+    else:
+        out["counters"]["tsan_runs"] = 0
+        out.setdefault("notes", []).append("ThreadSanitizer build unavailable: " + b.stderr[-300:])
     out["wall_s"] = time.time() - t0
     return out
